@@ -596,6 +596,33 @@ def run_threefield(col, blocks):
     if blocks.startswith("grad"):
         history_obligation(col, it, umat, label, cls, [F, p, J, sv], [Fsym(name="G"), scalar_field("p2", positive=False), scalar_field("J2"), sv], ngrad=3)
     else:
+        # a history-dependent inner material (its gradient returns a *new* state): every inner evaluation of one hessian() call -- stress and
+        # elasticity -- is made at the state variables the wrapper was given, not at a state one of the inner calls returned
+        for wname in ("ThreeFieldVariation", "NearlyIncompressible"):
+            ring.reset()
+            it2 = new_interp()
+            wcls = it2.get("felupe.constitution._mixed:" + wname)
+            inner2 = OpaqueHyper("Wm", with_state=True)
+            inner2.updates_state = True
+            kw2 = dict(material=inner2)
+            if wname == "NearlyIncompressible":
+                kw2["bulk"] = sym("bulk", True)
+            um2 = it2.call(wcls, [], kw2)
+            F2, p2, J2 = Fsym(), scalar_field("p", positive=False), scalar_field("J")
+            sv2 = np.empty((1, 1, 1), dtype=object)
+            sv2[0, 0, 0] = sym("zeta_n")
+            inner2.calls.clear()
+            it2.call_method(um2, "hessian", [[F2, p2, J2, sv2]])
+            seen = [(nm, [str(P(v)) for v in np.asarray(x_[-1]).reshape(-1)]) for nm, x_ in inner2.calls]
+            okk = bool(seen) and all(st_ == ["zeta_n"] for _, st_ in seen)
+            col.add("C03.O4", "%s.hessian inner evaluations (history-dependent inner material)" % wname,
+                    "stress and elasticity of the inner material are evaluated at the stored state variables handed to hessian(), so that the blocks are derivatives of the gradient at fixed state",
+                    okk, "%s: inner calls (method, state) %s" % (method_where(wcls, "hessian"), seen))
+            g2 = it2.call_method(um2, "gradient", [[F2, p2, J2, sv2]])
+            za = inner2.calls[-1][1][-1] if inner2.calls else None
+            col.add("C03.O4", "%s.gradient state update (history-dependent inner material)" % wname, "the new state handed out is the one the inner material computed from the stored state",
+                    g2[-1] is not None and len(np.asarray(g2[-1]).reshape(-1)) == 1 and "state" in str(P(np.asarray(g2[-1]).reshape(-1)[0])) and [str(P(v)) for v in np.asarray(za).reshape(-1)] == ["zeta_n"],
+                    "%s: returned %s" % (method_where(wcls, "gradient"), [str(P(v)) for v in np.asarray(g2[-1]).reshape(-1)]))
         # an inner material given by its stress (no potential, tangent without major symmetry): the (F,F) block is still the derivative of
         # the returned stress -- F:A and A:F are different contractions
         ring.reset()
